@@ -7,6 +7,7 @@ import numpy as np
 
 import core
 import gridw
+import poke
 import wire
 from mgr import guarded
 
@@ -43,6 +44,9 @@ class MoveSession:
                 act.grid = self.w.grid
         self.w.finish()
         self.stat = self.w.stat_wire()
+        for act in self.actors.values():
+            poke.rejected(act, desc)
+        poke.rejected(self.w.grid, desc, only={"overlapping"})
 
     def call(self, kind, a, arg, rep=None):
         """returns (pre_dyn, call_wire, outcome_wire); rep = representation of the action value (a numpy integer
